@@ -333,6 +333,10 @@ pub fn write_doc(d: &DocAst, fault: Option<&Fault>) -> String {
                 let t = t.replace("?>", "? >");
                 w.s.push_str(&format!("<?app {}?>", t));
             }
+            // white space between the elements; one time in five it is not ASCII (documents pasted
+            // from a web page or a word processor are indented with NO-BREAK SPACE or IDEOGRAPHIC
+            // SPACE; character data between elements is legal XML and means nothing in GraphML)
+            Item::Space(k) if *k >= 205 => w.s.push_str(["\u{a0}\u{a0}", "\n\u{3000}", "\n \u{a0}", "\u{2003}\u{feff}"][*k as usize % 4]),
             Item::Space(k) => w.s.push_str(["\n", "  ", "\n\t", " \n "][*k as usize % 4]),
             Item::Unknown { name, text, nested } => {
                 let n = UNKNOWN_ELEMS[*name as usize % UNKNOWN_ELEMS.len()];
@@ -421,7 +425,7 @@ pub fn item() -> impl Strategy<Value = Item> {
             .prop_map(|(source, target, weight, open, extra, data)| Item::Edge { source, target, weight, open, extra, data }),
         1 => xml_text().prop_map(Item::Comment),
         1 => "[a-z ]{0,5}".prop_map(Item::Pi),
-        2 => any::<u8>().prop_map(Item::Space),
+        4 => any::<u8>().prop_map(Item::Space),
         1 => (any::<u8>(), xml_text(), any::<bool>()).prop_map(|(name, text, nested)| Item::Unknown { name, text, nested }),
     ]
 }
